@@ -165,6 +165,7 @@ def gen_case(run_seed: int, tier: str, index: int = 0) -> dict:
         "preempt_p": 0.0,
         "hide_fileno": r.random() < 0.5,
         "hide_cfr": r.random() < 0.4,
+        "cfr_cap": st.rng("buggify-cfr").choice([None, None, None, 1, 5, 64, 1000]),
         "chunk": r.choice([None, 8, 64]),
     }
     return {
@@ -297,6 +298,7 @@ def exec_once(case: dict, plan: dict | None, ref_new: bytes | None, *, root: str
                 state["viol"] = {"clause": "crash-" + what, "detail": f"before effect {k} ({kind} {rel}): destination holds {len(cur)} bytes that are neither the previous ({len(old)}) nor the complete new ({len(ref_new) if ref_new is not None else '?'}) bytes", "k": k}
 
         seam = fsseam.FsSeam(root, sched=sched, faults=plan.get("fs", []), hide_fileno=case["sim"].get("hide_fileno", False), hide_copy_file_range=case["sim"].get("hide_cfr", False), on_boundary=on_boundary)
+        seam.cfr_cap = case["sim"].get("cfr_cap")
         cb = None
         if options.get("callback") or plan.get("callback") is not None:
             cbp = plan.get("callback") or {}
@@ -326,6 +328,7 @@ def exec_once(case: dict, plan: dict | None, ref_new: bytes | None, *, root: str
         on_boundary(len(seam.effects), "end", "")
         out["effects"] = [(k, kind, rel) for (k, kind, rel, _t) in seam.effects]
         out["fired"] = list(seam.fired)
+        out["cfr_capped"] = seam.cfr_capped_calls
         out["boundaries"] = state["boundaries"]
         if sched is not None:
             out["steps"] = sched.steps
@@ -336,9 +339,12 @@ def exec_once(case: dict, plan: dict | None, ref_new: bytes | None, *, root: str
                 if f.get("clause") == "harness":
                     out["error"] = f["detail"]
                 else:
-                    # deadlock etc. belongs to C09; here it is an interrupted save like any other, but it
-                    # prevents evaluating the post-conditions
+                    # liveness as such belongs to C09; but a save that was interrupted by an injected exception and then
+                    # never finishes can never "fail with an exception" nor remove its temporary directory
                     out["outcome"] = "aborted:" + f.get("clause", "")
+                    injected = bool(seam.fired) or bool(plan.get("tensor")) or plan.get("callback") is not None
+                    if injected and f.get("clause") == "deadlock":
+                        out["violation"] = {"clause": "interrupted-save-never-finished", "detail": f"after the injected fault the save neither returned nor raised ({f.get('detail', '')}); its temporary directory can never be removed"}
                 return out
         tensor_fired = sum(1 for t in world.tensor_objs if getattr(t, "fail", None) and getattr(t, "materialised", 0))
         out["collab_fired"] = bool(raised is not None and (plan.get("tensor") or plan.get("callback") is not None))
@@ -632,6 +638,8 @@ def run_case(case: dict) -> dict:
             res["error"] = r["error"]
             return res
         inc("crash_points_checked", r.get("boundaries", 0))
+        if r.get("cfr_capped"):
+            inc("buggify_copy_file_range_short_counts", r["cfr_capped"])
         fired_any = False
         for f in r["fired"]:
             inc(f"fault_{f['kind']}_{f['errno']}" + ("_short" if f["mode"] == "short" else ""))
@@ -699,7 +707,7 @@ def shrink_candidates(case: dict, violation: dict):
         c.pop("graph_parents", None)
         c["schedule"] = None
         yield c
-    for key, val in (("chunk", None), ("hide_cfr", False), ("stickiness", 0.0)):
+    for key, val in (("chunk", None), ("hide_cfr", False), ("stickiness", 0.0), ("cfr_cap", None)):
         if base["sim"].get(key) != val:
             c = copy.deepcopy(base)
             c["sim"][key] = val
